@@ -461,6 +461,12 @@ class Rolling(object):
             raise AttributeError("Rolling has no attribute %r" % key)
 
     def _known_aggregation(self, op, *args, **kwargs):
+        # The example of the result is computed from the example rows alone.
+        # A state given as ``start`` holds real rows, and these need not come
+        # before the rows of the example (time windows need a sorted index).
+        example = rolling_accumulator((), self.root.example,
+                                      window=self.window, op=op,
+                                      args=args, kwargs=kwargs)
         return self.root.accumulate_partitions(rolling_accumulator,
                                                window=self.window,
                                                op=op,
@@ -468,6 +474,7 @@ class Rolling(object):
                                                kwargs=kwargs,
                                                start=self.start,
                                                returns_state=True,
+                                               example=example,
                                                with_state=self.with_state)
 
     def sum(self):
